@@ -1,4 +1,5 @@
 use std::collections::HashMap;
+use std::convert::TryFrom;
 use std::io::{Read, Seek};
 use std::time::Duration;
 
@@ -238,7 +239,8 @@ impl<R: Read + Seek> Mp4Reader<R> {
             // no time base: the duration is not expressible
             return Duration::default();
         }
-        Duration::from_millis(self.moov.mvhd.duration * 1000 / self.moov.mvhd.timescale as u64)
+        let millis = self.moov.mvhd.duration as u128 * 1000 / self.moov.mvhd.timescale as u128;
+        Duration::from_millis(u64::try_from(millis).unwrap_or(u64::MAX))
     }
 
     pub fn timescale(&self) -> u32 {
